@@ -371,6 +371,92 @@ Section P.
       rewrite W. discriminate.
   Qed.
 
+
+  (* ---- C02/C12: where a status can come from ---- *)
+  Definition script_codes : list Z :=
+    flat_map (fun i => match i with IErr e => [e] | _ => [] end) (in_recv sc) ++
+    (match in_send_fail sc with Some (_, e) => [e] | None => [] end) ++
+    (match open_res sc with OpenErr e => [e] | _ => [] end) ++
+    (match out_send_fail sc with Some (_, ESt e) => [e] | _ => [] end) ++
+    flat_map (fun x => match snd x with OErr e => [e] | _ => [] end) (out_recv sc).
+
+  (* a status in flight is the target's / an adapter's (scripted), Unavailable for an unexpected EOF, Canceled (closed
+     stream or cancelled context), or DeadlineExceeded - the latter ONLY if the deadline really fired *)
+  Definition just (s : state) (e : Z) : Prop :=
+    In e script_codes \/ e = 14 \/ e = 1 \/ (e = 4 /\ fired s = CtxDeadline).
+  Definition just_f (s : state) (f : ferr) : Prop :=
+    match f with FIn (ESt e) | FOut (ESt e) => just s e | _ => True end.
+  Definition just_r (s : state) (r : res) : Prop := match r with RErr e => just s e | RNil => True end.
+
+  Definition Src (s : state) : Prop :=
+    (match ip s with IPut f => just_f s f | _ => True end) /\
+    (match op s with OPut f => just_f s f | _ => True end) /\
+    (match islot s with Some f => just_f s f | None => True end) /\
+    (match oslot s with Some f => just_f s f | None => True end) /\
+    (match mp s with MDClose r | MDCancel r | MDWait r | MRet r => just_r s r | _ => True end) /\
+    (match op s with OPut f => is_eof_ferr f = false | _ => True end) /\
+    (match oslot s with Some f => is_eof_ferr f = false | None => True end).
+
+  Lemma in_recv_code p e : nth_error (in_recv sc) p = Some (IErr e) -> In e script_codes.
+  Proof.
+    intros H. unfold script_codes. apply in_or_app. left. apply in_flat_map. exists (IErr e).
+    split; [eapply nth_error_In; eauto | left; reflexivity].
+  Qed.
+  Lemma out_recv_code p n b e : nth_error (out_recv sc) p = Some (n, b, OErr e) -> In e script_codes.
+  Proof.
+    intros H. unfold script_codes. do 4 (apply in_or_app; right). apply in_flat_map. exists (n, b, OErr e).
+    split; [eapply nth_error_In; eauto | left; reflexivity].
+  Qed.
+  Lemma in_send_code k e : in_send_fail sc = Some (k, e) -> In e script_codes.
+  Proof. intros H. unfold script_codes. apply in_or_app; right. apply in_or_app; left. rewrite H. left; reflexivity. Qed.
+  Lemma open_code e : open_res sc = OpenErr e -> In e script_codes.
+  Proof. intros H. unfold script_codes. do 2 (apply in_or_app; right). apply in_or_app; left. rewrite H. left; reflexivity. Qed.
+  Lemma out_send_code k e : out_send_fail sc = Some (k, ESt e) -> In e script_codes.
+  Proof. intros H. unfold script_codes. do 3 (apply in_or_app; right). apply in_or_app; left. rewrite H. left; reflexivity. Qed.
+  Lemma ctx_code_just s : just s (ctx_code s).
+  Proof. unfold just, ctx_code. destruct (fired s); auto. Qed.
+
+  Lemma src_inv : forall s, Reach s -> Src s.
+  Proof.
+    apply reach_ind.
+    - unfold Src; cbn; repeat split; auto.
+    - intros s l s' _ (S1 & S2 & S3 & S4 & S5 & S6 & S7) Hs.
+      step_cases Hs;
+        repeat match goal with |- context[match ?x with _ => _ end] => is_var x; destruct x end;
+        unfold Src in *; cbn; use_pcs; cbn in *;
+        repeat split; try assumption; try exact I;
+        try (unfold just_f, just_r, just in *; cbn;
+             match goal with
+             | Q : fired ?s = CtxNone |- context[match ?x with _ => _ end] =>
+                 destruct x; try exact I;
+                 repeat match goal with f : ferr |- _ => destruct f as [[|?]|[|?]|] | r : res |- _ => destruct r end;
+                 cbn in *; try exact I; rewrite ?Q in *; intuition congruence
+             end);
+        try (match goal with |- context[match ?x with _ => _ end] => destruct x eqn:? end; cbn in *; try exact I; try assumption);
+        unfold just_f, just_r in *; cbn in *;
+        try assumption; try exact I;
+        try (unfold just; eauto 6 using ctx_code_just, in_recv_code, out_recv_code, in_send_code, open_code, out_send_code);
+        try apply ctx_code_just.
+      all: cbn in *; try assumption; try exact I; try apply ctx_code_just;
+           try (fold (just s (ctx_code s)); apply ctx_code_just).
+      all: try (repeat match goal with |- match ?x with _ => _ end => destruct x as [| |] || destruct x end; cbn in *; try exact I; try assumption;
+                unfold just in *; cbn in *; intuition congruence).
+      all: unfold just_f, just_r, just in *; cbn in *; try assumption; try discriminate.
+      all: try (repeat match goal with f : ferr |- _ => destruct f as [[|?]|[|?]|] end; cbn in *; try exact I; try assumption; try discriminate; intuition congruence).
+      all: try (match goal with H : (if ?c then _ else _) = _ |- _ => destruct c; discriminate H end).
+      all: try exact S1; try exact S2; try exact S3; try exact S4; try exact S5; try exact S6; try exact S7.
+  Qed.
+
+
+  (* the status a call returns has a source; DeadlineExceeded in particular only if the deadline really fired
+     (or the target / an adapter itself reported it) *)
+  Theorem result_source s e : Reach s -> mp s = MRet (RErr e) ->
+    In e script_codes \/ e = 14 \/ e = 1 \/ (e = 4 /\ fired s = CtxDeadline).
+  Proof. intros R E. destruct (src_inv s R) as (_ & _ & _ & _ & S5 & _). rewrite E in S5. exact S5. Qed.
+
+  Theorem deadline_exceeded_means_deadline s : Reach s -> mp s = MRet (RErr 4) -> ~ In 4 script_codes -> fired s = CtxDeadline.
+  Proof. intros R E N. destruct (result_source s 4 R E) as [H|[H|[H|[_ H]]]]; try discriminate; try contradiction. exact H. Qed.
+
   (* ---- user-facing corollaries ---- *)
   Theorem requests_prefix s : Reach s -> exists k, sent_out s = firstn k (in_msgs (in_recv sc)).
   Proof. intros R. destruct (data_inv s R) as (_ & H & _). exact H. Qed.
